@@ -95,9 +95,20 @@ example : ¬ Touches .ctx (.op (.lookup .parseDate (.str "2024-01-01") (.date 19
     evictions, other recency order, entries stored under another Python-equal key). -/
 theorem frame_deterministic (F : CacheId → Key → Val) (P : CacheId → Key → Bool) (V : CacheId → Val → Val)
     (hcomp : Compat F P V) (p : Prog) (hd : Det F P V false p) (a b : Proc)
-    (ha : Consistent F P a) (hb : Consistent F P b) :
+    (ha : Consistent F P a) (hb : Consistent F P b) (hs : a.settings = b.settings) :
     (run { proc := a, dirs := [] } p).out = (run { proc := b, dirs := [] } p).out :=
-  det_core F P V hcomp hd _ _ ha hb rfl (by intro h; cases h)
+  det_core F P V hcomp hd _ _ ha hb rfl (by intro h; cases h) hs
+
+/-- runs without a setter leave the process-wide settings of other modules as they were, over any sequence -/
+theorem settings_kept_runAll (ps : List Prog) (hk : ∀ q ∈ ps, KeepsSettings q) :
+    ∀ st : St, (runAll st ps).proc.settings = st.proc.settings := by
+  induction ps with
+  | nil => intro st; rfl
+  | cons p ps ih =>
+    intro st
+    simp only [runAll]
+    rw [ih (fun q hq => hk q (List.mem_cons_of_mem _ hq))]
+    exact settings_kept (hk p List.mem_cons_self) _
 
 /-- keys that are not aware datetimes are compared by identity: *every* function is compatible, under
     the identity view -/
@@ -154,27 +165,29 @@ theorem consistent_runAll (F : CacheId → Key → Val) (P : CacheId → Key →
     predecessors is that the functions behind the caches are pure on the keys `P` that deterministic
     programs use. -/
 theorem runs_independent (F : CacheId → Key → Val) (P : CacheId → Key → Bool) (V : CacheId → Val → Val)
-    (hcomp : Compat F P V) (ps : List Prog) (ht : ∀ q ∈ ps, Tame F P q) (p : Prog) (hd : Det F P V false p) :
+    (hcomp : Compat F P V) (ps : List Prog) (ht : ∀ q ∈ ps, Tame F P q) (hk : ∀ q ∈ ps, KeepsSettings q)
+    (p : Prog) (hd : Det F P V false p) :
     (run { proc := (runAll fresh ps).proc, dirs := [] } p).out = (run fresh p).out :=
   frame_deterministic F P V hcomp p hd _ _ (consistent_runAll F P ps ht fresh (fresh_consistent F P))
-    (fresh_consistent F P)
+    (fresh_consistent F P) (settings_kept_runAll ps hk fresh)
 
 /-- **failed_run_does_not_poison**: the special case the property statement names — one failed run,
     then the recipe. -/
 theorem failed_run_does_not_poison (F : CacheId → Key → Val) (P : CacheId → Key → Bool) (V : CacheId → Val → Val)
-    (hcomp : Compat F P V) (bad : Prog) (hbad : Tame F P bad) (_hfails : (run fresh bad).ok = false)
-    (p : Prog) (hd : Det F P V false p) :
+    (hcomp : Compat F P V) (bad : Prog) (hbad : Tame F P bad) (hkeep : KeepsSettings bad)
+    (_hfails : (run fresh bad).ok = false) (p : Prog) (hd : Det F P V false p) :
     (run { proc := (run fresh bad).st.proc, dirs := [] } p).out = (run fresh p).out := by
-  have := runs_independent F P V hcomp [bad] (by intro q hq; simp at hq; subst hq; exact hbad) p hd
+  have := runs_independent F P V hcomp [bad] (by intro q hq; simp at hq; subst hq; exact hbad)
+    (by intro q hq; simp at hq; subst hq; exact hkeep) p hd
   simpa [runAll, fresh] using this
 
 /-- for recipes whose cached calls never see an aware datetime no assumption on the library functions
     is left: *any* `F` will do, and the program may inspect the returned objects as it likes -/
 theorem runs_independent_not_aware (F : CacheId → Key → Val)
-    (ps : List Prog) (ht : ∀ q ∈ ps, Tame F (fun _ k => !k.isAware) q) (p : Prog)
+    (ps : List Prog) (ht : ∀ q ∈ ps, Tame F (fun _ k => !k.isAware) q) (hk : ∀ q ∈ ps, KeepsSettings q) (p : Prog)
     (hd : Det F (fun _ k => !k.isAware) (fun _ => id) false p) :
     (run { proc := (runAll fresh ps).proc, dirs := [] } p).out = (run fresh p).out :=
-  runs_independent F _ _ (compat_not_aware F) ps ht p hd
+  runs_independent F _ _ (compat_not_aware F) ps ht hk p hd
 
 /-- **runs_independent_std** — the strength that is true for the code since commit f914bf1: aware
     datetimes of any offset may go through `parse_datetimespec` as long as the result is used the way
@@ -182,9 +195,10 @@ theorem runs_independent_not_aware (F : CacheId → Key → Val)
     must not be keyed by aware datetimes. -/
 theorem runs_independent_std (F : CacheId → Key → Val)
     (hspec : ∀ i o, F .parseDatetimespec (.aware i o) = .aware i o)
-    (ps : List Prog) (ht : ∀ q ∈ ps, Tame F stdP q) (p : Prog) (hd : Det F stdP stdV false p) :
+    (ps : List Prog) (ht : ∀ q ∈ ps, Tame F stdP q) (hk : ∀ q ∈ ps, KeepsSettings q)
+    (p : Prog) (hd : Det F stdP stdV false p) :
     (run { proc := (runAll fresh ps).proc, dirs := [] } p).out = (run fresh p).out :=
-  runs_independent F stdP stdV (compat_std F hspec) ps ht p hd
+  runs_independent F stdP stdV (compat_std F hspec) ps ht hk p hd
 
 /-- a continuation that may look at the whole object (identity view) is invariant -/
 theorem view_id_invariant {V : CacheId → Val → Val} {c : CacheId} (hV : ∀ v, V c v = v) (kont : Obs → Prog)
@@ -224,9 +238,10 @@ theorem datetimeField_det (i o : Int) : Det specFD stdP stdV false (datetimeFiel
     split <;> exact .emit .done
 
 /-- hence: whatever offsets earlier runs used for the same instant, `datetime:` emits the written instant -/
-theorem datetime_field_independent (i o : Int) (ps : List Prog) (ht : ∀ q ∈ ps, Tame specFD stdP q) :
+theorem datetime_field_independent (i o : Int) (ps : List Prog) (ht : ∀ q ∈ ps, Tame specFD stdP q)
+    (hk : ∀ q ∈ ps, KeepsSettings q) :
     (run { proc := (runAll fresh ps).proc, dirs := [] } (datetimeField i o)).out = (run fresh (datetimeField i o)).out :=
-  runs_independent_std specFD (fun _ _ => rfl) ps ht _ (datetimeField_det i o)
+  runs_independent_std specFD (fun _ _ => rfl) ps ht hk _ (datetimeField_det i o)
 
 /-! ### Full strength for the code as it is since commit 885750c: any key for the date functions -/
 
@@ -292,6 +307,7 @@ theorem detC_det {F : CacheId → Key → Val} {h : Bool} {c : Code} (hd : DetC 
   | getHistory _ ih => simp only [Code.toProg]; exact .getHistory ih
   | enterDir _ ih => simp only [Code.toProg]; exact .enterDir ih
   | leaveDir _ ih => simp only [Code.toProg]; exact .leaveDir ih
+  | getSetting _ ih => simp only [Code.toProg]; exact .getSetting ih
 
 /-- **runs_independent_full** — the property statement at full strength for the repaired code: after any
     sequence of earlier runs (arbitrary `Code`: unique ids, draws, clock, failures; dates given as strings,
@@ -300,13 +316,42 @@ theorem detC_det {F : CacheId → Key → Val} {h : Bool} {c : Code} (hd : DetC 
     the libraries behind the caches.  The remaining hypotheses are the purity of the library calls on
     strings / ints / pairs (for the import cache that is exactly what D19d violates). -/
 theorem runs_independent_full (F : CacheId → Key → Val) (ps : List Code) (ht : ∀ q ∈ ps, TameC F q)
-    (p : Code) (hd : DetC F false p) :
+    (hk : ∀ q ∈ ps, KeepsSettings (q.toProg true)) (p : Code) (hd : DetC F false p) :
     (run { proc := (runAll fresh (ps.map (Code.toProg true))).proc, dirs := [] } (p.toProg true)).out
       = (run fresh (p.toProg true)).out := by
-  apply runs_independent F notAware (fun _ => id) (compat_not_aware F) _ _ _ (detC_det hd)
-  intro q hq
-  obtain ⟨c, hc, rfl⟩ := List.mem_map.mp hq
-  exact tameC_tame (ht c hc)
+  apply runs_independent F notAware (fun _ => id) (compat_not_aware F) _ _ _ _ (detC_det hd)
+  · intro q hq
+    obtain ⟨c, hc, rfl⟩ := List.mem_map.mp hq
+    exact tameC_tame (ht c hc)
+  · intro q hq
+    obtain ⟨c, hc, rfl⟩ := List.mem_map.mp hq
+    exact hk c hc
+
+/-- **setting_write_leaks** — why `KeepsSettings` is a hypothesis: the settings vector is part of the frame.  A
+    deterministic run may *read* a process-wide setting (the csv reader consults `csv.field_size_limit()`); a
+    predecessor that raises it and does not restore it (update mode after the `field_size_limit` mutation) changes
+    what the later run does: the over-long field is rejected in a fresh process and accepted after the update run. -/
+theorem setting_write_leaks :
+    let updateRun : Code := .op (.setSetting 0 16777216) (fun _ => .emit "updated row" .done)
+    let bigCsv : Code := .op (.getSetting 0) (fun o =>
+      match o with
+      | .int lim => if lim < 140000 then .fail "field larger than field limit" else .emit "row" .done
+      | _ => .fail "?")
+    DetC (fun _ k => k) false bigCsv
+    ∧ (run { proc := { settings := fun _ => 131072 }, dirs := [] } (bigCsv.toProg true)).out = ([], false)
+    ∧ (run { proc := (run { proc := { settings := fun _ => 131072 }, dirs := [] } (updateRun.toProg true)).st.proc,
+             dirs := [] } (bigCsv.toProg true)).out = (["row"], true) := by
+  refine ⟨.getSetting ?_, by decide, by decide⟩
+  intro o
+  cases o with
+  | int lim => simp only []; split <;> first | exact .fail | exact .emit .done
+  | _ => exact .fail
+
+/-- …and a run that contains no setter leaves every setting alone, wherever it stops (`failed_run_frame` for the
+    settings cells follows from `Touches`; this is the sequence form used above) -/
+theorem settings_frame (ps : List Prog) (hk : ∀ q ∈ ps, KeepsSettings q) (st : St) (i : Nat) :
+    (runAll st ps).proc.settings i = st.proc.settings i := by
+  rw [settings_kept_runAll ps hk st]
 
 /-- a continuation that shows what came back -/
 def showOffsetC : Obs → Code
